@@ -197,3 +197,453 @@ let () =
         | 1 -> let f = boundary_z64 r in let f = if Z.numbits f > 63 then Z.sub f (p 64) else f in foff f (List.nth small (rand_int r 8))
         | _ -> adv (Z.of_int (rand_int r 100000)) (Z.logand (boundary_z64 r) (Z.pred (p 32))) (Z.of_int (1 + rand_int r 255))
       done)
+
+(* ======================================================================================================
+   Correspondence streams for the converter models (Model/Convert{Cfi,Expr,Lists,Attr}.v).
+   The harness prints the converted write-side objects through their `Debug` rendering (whitespace and the
+   `base_id` fields removed); the printers below produce the same text from the model's values. *)
+module Cx = struct
+  let sn = string_of_n
+  let sz = string_of_cz
+  let spf = Printf.sprintf
+  let bytes_dbg (bs : Byte0.byte list) = "[" ^ String.concat "," (List.map (fun b -> string_of_int (int_of_byte b)) bs) ^ "]"
+  let eid n = spf "UnitEntryId{index:%s}" (sn n)
+  let dref = function
+    | OpWr.RSym s -> spf "Symbol(%s)" (sn s)
+    | OpWr.REntry (u, e) -> spf "Entry(UnitId{index:%s},%s)" (sn u) (eid e)
+  let waddr = function
+    | OpWr.AConst v -> spf "Constant(%s)" (sn v)
+    | OpWr.ASym (s, a) -> spf "Symbol{symbol:%s,addend:%s}" (sn s) (sz a)
+  let rec wop (o : OpWr.wop) : string =
+    match o with
+    | OpWr.WoRaw b -> spf "Raw(%s)" (bytes_dbg b)
+    | OpWr.WoSimple opc -> spf "Simple(DwOp(%s))" (sn opc)
+    | OpWr.WoAddress a -> spf "Address(%s)" (waddr a)
+    | OpWr.WoUConst v -> spf "UnsignedConstant(%s)" (sn v)
+    | OpWr.WoSConst v -> spf "SignedConstant(%s)" (sz v)
+    | OpWr.WoConstType (b, v) -> spf "ConstantType(%s,%s)" (eid b) (bytes_dbg v)
+    | OpWr.WoFrameOffset v -> spf "FrameOffset(%s)" (sz v)
+    | OpWr.WoRegOffset (r, v) -> spf "RegisterOffset(Register(%s),%s)" (sn r) (sz v)
+    | OpWr.WoRegType (r, b) -> spf "RegisterType(Register(%s),%s)" (sn r) (eid b)
+    | OpWr.WoPick i -> spf "Pick(%s)" (sn i)
+    | OpWr.WoDeref sp -> spf "Deref{space:%b}" sp
+    | OpWr.WoDerefSize (sp, s) -> spf "DerefSize{space:%b,size:%s}" sp (sn s)
+    | OpWr.WoDerefType (sp, s, b) -> spf "DerefType{space:%b,size:%s,base:%s}" sp (sn s) (eid b)
+    | OpWr.WoPlusConst v -> spf "PlusConstant(%s)" (sn v)
+    | OpWr.WoSkip t -> spf "Skip(%s)" (sn t)
+    | OpWr.WoBranch t -> spf "Branch(%s)" (sn t)
+    | OpWr.WoCall en -> spf "Call(%s)" (eid en)
+    | OpWr.WoCallRef r -> spf "CallRef(%s)" (dref r)
+    | OpWr.WoVarValue r -> spf "VariableValue(%s)" (dref r)
+    | OpWr.WoConvert None -> "Convert(None)"
+    | OpWr.WoConvert (Some b) -> spf "Convert(Some(%s))" (eid b)
+    | OpWr.WoReinterpret None -> "Reinterpret(None)"
+    | OpWr.WoReinterpret (Some b) -> spf "Reinterpret(Some(%s))" (eid b)
+    | OpWr.WoEntryValue ex -> spf "EntryValue(Expression{operations:%s})" (wexpr ex)
+    | OpWr.WoRegister r -> spf "Register(Register(%s))" (sn r)
+    | OpWr.WoImplicitValue d -> spf "ImplicitValue(%s)" (bytes_dbg d)
+    | OpWr.WoImplicitPointer (r, off) -> spf "ImplicitPointer{entry:%s,byte_offset:%s}" (dref r) (sz off)
+    | OpWr.WoPiece s -> spf "Piece{size_in_bytes:%s}" (sn s)
+    | OpWr.WoBitPiece (s, o) -> spf "BitPiece{size_in_bits:%s,bit_offset:%s}" (sn s) (sn o)
+    | OpWr.WoParameterRef en -> spf "ParameterRef(%s)" (eid en)
+    | OpWr.WoWasmLocal i -> spf "WasmLocal(%s)" (sn i)
+    | OpWr.WoWasmGlobal i -> spf "WasmGlobal(%s)" (sn i)
+    | OpWr.WoWasmStack i -> spf "WasmStack(%s)" (sn i)
+  and wexpr ex = "[" ^ String.concat "," (List.map wop ex) ^ "]"
+
+  (* the address conversion callbacks of the streams (harness: cvt_mode) *)
+  let cvt_mode (mode : int) (a : BinNums.coq_N) : OpWr.waddr option =
+    let z = z_of_n a in
+    if mode >= 1 && Z.equal z (Z.of_int 0xdead) then None
+    else if mode >= 2 && Z.geq z (Z.of_string "2147483648") then
+      Some (OpWr.ASym (n_of_int 1, cz_of_z (Z.sub z (Z.of_string "2147483648"))))
+    else Some (OpWr.AConst a)
+
+  let rec sub (l : 'a list) off len =
+    if off > 0 then (match l with [] -> [] | _ :: t -> sub t (off - 1) len)
+    else if len <= 0 then [] else (match l with [] -> [] | x :: t -> x :: sub t 0 (len - 1))
+
+  let dec_enc ~be ~asz ~ver : OpDec.enc = { OpDec.e_asz = n_of_int asz; e_fmt64 = false; e_ver = n_of_int ver; e_be = be }
+
+  (* Expression::from without a unit (CFI): no .debug_addr, NoConvertDebugInfoRef *)
+  let conv_expr_cfi dbg ~be ~asz ~ver ~mode (bs : Byte0.byte list) =
+    ConvertExpr.conv_expr dbg (dec_enc ~be ~asz ~ver) None (cvt_mode mode)
+      (fun _ -> Res.Err Res.CInvalidUnitRef) (fun _ -> Res.Err Res.CInvalidDebugInfoRef) bs
+
+  (* ---- random expressions: operation chunks first, branch displacements patched after layout ---- *)
+  type chunk = Bytes of int list | Br of int * int   (* opcode, target chunk index (may be out of range / -1 = mid-op) *)
+  let gen_expr r ~be ~asz ~ver ~(dies : int list) ~depth : int list =
+    let z = Z.of_int in
+    let die () = if dies = [] || rand_int r 12 = 0 then rand_int r 40 else List.nth dies (rand_int r (List.length dies)) in
+    let die0 () = if rand_int r 4 = 0 then 0 else die () in
+    let small () = pick r [| 0; 1; 2; 5; 31; 32; 63; 64; 127; 128; 300; 65535 |] in
+    let rec one depth : chunk =
+      match rand_int r 44 with
+      | 0 -> Bytes [0x30 + rand_int r 32]
+      | 1 -> Bytes (0x10 :: uleb (if rand_bool r then z (small ()) else boundary_z64 r))
+      | 2 -> Bytes (0x11 :: sleb (z (rand_int r 2000 - 1000)))
+      | 3 -> Bytes [0x08; rand_int r 256]
+      | 4 -> Bytes (0x0a :: fixed be 2 (z (rand_int r 65536)))
+      | 5 -> Bytes (0x0d :: fixed be 4 (z (rand_int r 100000)))
+      | 6 -> Bytes [0x50 + rand_int r 32]
+      | 7 -> Bytes ((0x70 + rand_int r 32) :: sleb (z (rand_int r 600 - 300)))
+      | 8 -> Bytes (0x90 :: uleb (z (pick r [| 0; 31; 32; 300; 65535; 65536 |])))
+      | 9 -> Bytes (0x92 :: uleb (z (pick r [| 0; 31; 32; 300; 65535 |])) @ sleb (z (rand_int r 600 - 300)))
+      | 10 -> Bytes (0x91 :: sleb (z (rand_int r 600 - 300)))
+      | 11 -> Bytes [pick r [| 0x12; 0x13; 0x14; 0x16; 0x17; 0x19; 0x1a; 0x1b; 0x1c; 0x1d; 0x1e; 0x1f; 0x20; 0x21; 0x22;
+                              0x24; 0x25; 0x26; 0x27; 0x29; 0x2a; 0x2b; 0x2c; 0x2d; 0x2e; 0x96; 0x97; 0x9b; 0xe0; 0x9c; 0x9f; 0xf0 |]]
+      | 12 -> Bytes [0x15; rand_int r 256]
+      | 13 -> Bytes [pick r [| 0x06; 0x18 |]]
+      | 14 -> Bytes [pick r [| 0x94; 0x95 |]; pick r [| 1; 2; 4; 8; asz; 0; 255 |]]
+      | 15 -> Bytes (pick r [| 0xa6; 0xf6; 0xa7 |] :: pick r [| 1; 4; 8; asz |] :: uleb (z (die0 ())))
+      | 16 -> Bytes (0x23 :: uleb (z (small ())))
+      | 17 | 18 -> Br (0x2f, rand_int r 12 - 1)
+      | 19 | 20 -> Br (0x28, rand_int r 12 - 1)
+      | 21 -> Bytes (0x93 :: uleb (if rand_int r 8 = 0 then Z.shift_left Z.one 61 else z (small ())))
+      | 22 -> Bytes (0x9d :: uleb (z (small ())) @ uleb (z (small ())))
+      | 23 -> let d = rand_bytes r (rand_int r 5) in Bytes (0x9e :: uleb (z (List.length d)) @ d)
+      | 24 -> Bytes (0x03 :: fixed be asz (pick r [| z 4096; z 0; z 0xdead; Z.of_string "2147483648"; Z.of_string "4294967295" |]))
+      | 25 -> Bytes (pick r [| 0xa1; 0xfb |] :: uleb (z (rand_int r 4)))
+      | 26 -> Bytes (pick r [| 0xa2; 0xfc |] :: uleb (z (rand_int r 4)))
+      | 27 -> Bytes (0x98 :: fixed be 2 (z (die ())))
+      | 28 -> Bytes (0x99 :: fixed be 4 (z (die ())))
+      | 29 -> Bytes (0x9a :: fixed be 4 (z (die ())))
+      | 30 -> Bytes (0xfd :: fixed be 4 (z (die ())))
+      | 31 -> Bytes (pick r [| 0xa0; 0xf2 |] :: fixed be (if ver = 2 then asz else 4) (z (die ())) @ sleb (z (rand_int r 100 - 50)))
+      | 32 -> Bytes (0xfa :: fixed be 4 (z (die ())))
+      | 33 -> let d = rand_bytes r (rand_int r 4) in Bytes (pick r [| 0xa4; 0xf4 |] :: uleb (z (die ())) @ (List.length d :: d))
+      | 34 -> Bytes (pick r [| 0xa5; 0xf5 |] :: uleb (z (rand_int r 40)) @ uleb (z (die0 ())))
+      | 35 -> Bytes (pick r [| 0xa8; 0xf7 |] :: uleb (z (die0 ())))
+      | 36 -> Bytes (pick r [| 0xa9; 0xf9 |] :: uleb (z (die0 ())))
+      | 37 -> Bytes (0xed :: rand_int r 3 :: uleb (z (rand_int r 100000)))
+      | 38 -> Bytes (0xed :: 3 :: fixed be 4 (z (rand_int r 100000)))
+      | 39 | 40 when depth > 0 ->
+          let inner = whole (depth - 1) (rand_int r 4) in
+          Bytes (pick r [| 0xa3; 0xf3 |] :: uleb (z (List.length inner)) @ inner)
+      | 41 -> Bytes [pick r [| 0x01; 0x02; 0xff; 0xa3 |]]     (* unknown opcode / truncated entry_value *)
+      | _ -> Bytes [0x30 + rand_int r 32]
+    and whole depth n : int list =
+      let chunks = Array.init n (fun _ -> one depth) in
+      let size = function Bytes b -> List.length b | Br _ -> 3 in
+      let starts = Array.make (n + 1) 0 in
+      Array.iteri (fun i c -> starts.(i + 1) <- starts.(i) + size c) chunks;
+      List.concat (Array.to_list (Array.mapi (fun i c ->
+        match c with
+        | Bytes b -> b
+        | Br (opc, t) ->
+            let tgt = if t < 0 then starts.(i) + 1            (* into the middle of this operation *)
+                      else if t > n then starts.(n) + 1 + rand_int r 5   (* past the end *)
+                      else starts.(t) in
+            let disp = tgt - (starts.(i) + 3) in
+            opc :: fixed be 2 (Z.of_int (disp land 0xffff))) chunks)) in
+    whole depth (1 + rand_int r 7)
+
+  (* the unit the harness builds for the unit-mode streams: header, then root, two base types, a fourth DIE *)
+  let unit_hdr ver = if ver >= 5 then 12 else 11
+  let root_size ~asz ~ver ~low_pc ~line = 1 + (if low_pc then asz else 0) + (if ver >= 5 then 4 else 0) + (if line then 4 else 0)
+  let die_offsets ~asz ~ver ~low_pc ~line =
+    let h = unit_hdr ver in let r = root_size ~asz ~ver ~low_pc ~line in [h; h + r; h + r + 2; h + r + 4]
+end
+
+let () =
+  let open Cx in
+  register "c12.cficonv" ~doc:"ConvertCfi.conv_entry vs write::FrameTable::from: generated CIE + FDE instruction streams (every DW_CFA opcode incl. expressions, boundary operands, large factors, truncations); compared = the converted instruction lists with their code offsets, or the error"
+    (fun ~seed ~n emit ->
+      let r = mk_rng (seed + 1201) in
+      let cafs = [| "1"; "2"; "4"; "255"; "256"; "65536"; "4294967296"; "0"; "3" |] in
+      let dafs = [| "-8"; "-4"; "-1"; "1"; "8"; "127"; "128"; "-128"; "-129"; "2147483648"; "0" |] in
+      for _ = 1 to n do
+        tame := rand_int r 10 < 6;
+        let be = rand_int r 4 = 0 in
+        let asz = pick r [| 8; 8; 4 |] in
+        let version = pick r [| 1; 3; 4 |] in
+        let caf = if !tame then pick r [| "1"; "1"; "2"; "4" |] else pick r cafs
+        and daf = if !tame then pick r [| "-8"; "-4"; "8"; "1"; "-1" |] else pick r dafs in
+        let cie = List.concat (List.init (rand_int r 4) (fun _ -> cfa_insn r be asz)) in
+        let fde = List.concat (List.init (rand_int r 10) (fun _ -> cfa_insn r be asz)) in
+        let fde = if rand_int r 20 = 0 then (match List.rev fde with [] -> [] | _ :: t -> List.rev t) else fde in
+        let fde = if rand_int r 30 = 0 then fde @ (0x01 :: fixed be asz (Z.of_int 0x2000)) else fde in
+        (* running code offsets around 2^32 *)
+        let fde = if rand_int r 15 = 0 then
+            (0x04 :: fixed be 4 (Z.of_string "4294967280")) @ [0x40 lor (pick r [| 15; 16; 63; 1 |]); 0x0e; 0x08] @ fde
+          else fde in
+        let case = Printf.sprintf "c12.cficonv %d %d %d %s %s %s %s" (if be then 1 else 0) asz version caf daf (hex_of_ints cie) (hex_of_ints fde) in
+        both emit case (fun dbg ->
+          let d = { CfiRun.d_be = be; d_asize = n_of_int asz; d_aarch64 = false } in
+          (* the section builder of the harness pads both entries with DW_CFA_nop to the address size *)
+          let pad body = (asz - ((body + 4) mod asz)) mod asz in
+          let cie_hdr = 4 + 1 + 1 + (if version >= 4 then 2 else 0) + List.length (uleb (Z.of_string caf))
+                        + List.length (sleb (Z.of_string daf)) + 1 in
+          let cie = cie @ List.init (pad (cie_hdr + List.length cie)) (fun _ -> 0) in
+          let fde = fde @ List.init (pad (4 + 2 * asz + List.length fde)) (fun _ -> 0) in
+          let cie_b = bytes_of_ints cie and fde_b = bytes_of_ints fde in
+          let fde_base = 1000000 in
+          let table : OpWr.wop list list ref = ref [] in
+          let xconv (e : CfaSpec.uexpr) : Byte0.byte list Res.res =
+            let off = int_of_n e.CfaSpec.ue_off and len = int_of_n e.CfaSpec.ue_len in
+            let bs = if off >= fde_base then sub fde_b (off - fde_base) len else sub cie_b off len in
+            match conv_expr_cfi dbg ~be ~asz ~ver:version ~mode:0 bs with
+            | Res.Ok ex -> let k = List.length !table in table := !table @ [ex];
+                           Res.Ok [byte_of_int (k / 256); byte_of_int (k land 255)]
+            | Res.Err x -> Res.Err x | Res.Panic -> Res.Panic | Res.OutOfFuel -> Res.OutOfFuel in
+          let expr (k : Byte0.byte list) = match k with
+            | [a; b] -> spf "Expression{operations:%s}" (wexpr (List.nth !table (int_of_byte a * 256 + int_of_byte b)))
+            | _ -> "?" in
+          let reg x = spf "Register(%s)" (sn x) in
+          let cfi (c : CfaEncSpec.cfi) = match c with
+            | CfaEncSpec.Cfa (x, o) -> spf "Cfa(%s,%s)" (reg x) (sz o)
+            | CfaEncSpec.CfaRegister x -> spf "CfaRegister(%s)" (reg x)
+            | CfaEncSpec.CfaOffset o -> spf "CfaOffset(%s)" (sz o)
+            | CfaEncSpec.CfaExpression e -> spf "CfaExpression(%s)" (expr e)
+            | CfaEncSpec.Restore x -> spf "Restore(%s)" (reg x)
+            | CfaEncSpec.Undefined x -> spf "Undefined(%s)" (reg x)
+            | CfaEncSpec.SameValue x -> spf "SameValue(%s)" (reg x)
+            | CfaEncSpec.Offset (x, o) -> spf "Offset(%s,%s)" (reg x) (sz o)
+            | CfaEncSpec.ValOffset (x, o) -> spf "ValOffset(%s,%s)" (reg x) (sz o)
+            | CfaEncSpec.Register (a, b) -> spf "Register(%s,%s)" (reg a) (reg b)
+            | CfaEncSpec.Expression (x, e) -> spf "Expression(%s,%s)" (reg x) (expr e)
+            | CfaEncSpec.ValExpression (x, e) -> spf "ValExpression(%s,%s)" (reg x) (expr e)
+            | CfaEncSpec.RememberState -> "RememberState"
+            | CfaEncSpec.RestoreState -> "RestoreState"
+            | CfaEncSpec.ArgsSize k -> spf "ArgsSize(%s)" (sn k)
+            | CfaEncSpec.NegateRaState -> "NegateRaState" in
+          let cie_items = CfiRun.decode dbg d N0 cie_b in
+          let fde_items = CfiRun.decode dbg d (n_of_int fde_base) fde_b in
+          show_res (fun ((f, cl), fl) ->
+            let (c, dd) = f in
+            spf "%s %s [%s] [%s]" (sn c) (sz dd) (String.concat "," (List.map cfi cl))
+              (String.concat "," (List.map (fun (o, x) -> spf "(%s,%s)" (sn o) (cfi x)) fl)))
+            (ConvertCfi.conv_entry (n_of_string caf) (cz_of_string daf) xconv cie_items fde_items))
+      done);
+  register "c12.exprconv" ~doc:"ConvertExpr.conv_expr vs write::Expression::from (reached through DW_CFA_def_cfa_expression and through ConvertUnit::convert_expression in a four-DIE unit): generated expressions with every operation kind, branches to operation starts / into operands / past the end, nested entry_value, unit and .debug_info references valid and invalid, addrx/constx with and without .debug_addr entries, address callbacks returning None / symbols; compared = the converted operation list or the error"
+    (fun ~seed ~n emit ->
+      let r = mk_rng (seed + 1202) in
+      for _ = 1 to n do
+        let be = rand_int r 4 = 0 in
+        let asz = pick r [| 8; 8; 4 |] in
+        let mode = pick r [| 0; 0; 1; 2 |] in
+        if rand_int r 3 = 0 then begin
+          let ver = pick r [| 1; 3; 4 |] in
+          let e = gen_expr r ~be ~asz ~ver ~dies:[] ~depth:2 in
+          let case = Printf.sprintf "c12.exprconv cfi %d %d %d %d %s" (if be then 1 else 0) asz ver mode (hex_of_ints e) in
+          both emit case (fun dbg -> show_res wexpr (conv_expr_cfi dbg ~be ~asz ~ver ~mode (bytes_of_ints e)))
+        end else begin
+          let ver = pick r [| 2; 3; 4; 5 |] in
+          let dies = die_offsets ~asz ~ver ~low_pc:false ~line:false in
+          let nad = rand_int r 4 in
+          let hdr = if ver >= 5 then [0; 0; 0; 0; 5; 0; asz; 0] else [] in
+          let daddr = hdr @ List.concat (List.init nad (fun k ->
+            fixed be asz (pick r [| Z.of_int (0x2000 + 16 * k); Z.of_int 0xdead; Z.of_string "2147483648"; Z.zero |]))) in
+          let daddr = if rand_int r 10 = 0 then (match List.rev daddr with [] -> [] | _ :: t -> List.rev t) else daddr in
+          let e = gen_expr r ~be ~asz ~ver ~dies ~depth:2 in
+          let case = Printf.sprintf "c12.exprconv unit %d %d %d %d %s %s" (if be then 1 else 0) asz ver mode (hex_of_ints daddr) (hex_of_ints e) in
+          both emit case (fun dbg ->
+            let base = if ver >= 5 then 8 else 0 in
+            let ua i = ListsRd.get_address be (bytes_of_ints daddr) (n_of_int asz) (n_of_int base) i in
+            let idx_of off = let rec go k = function [] -> None | d :: t -> if Z.equal (z_of_n off) (Z.of_int d) then Some k else go (k + 1) t in go 0 dies in
+            let unit_ref off = match idx_of off with Some k -> Res.Ok (n_of_int k) | None -> Res.Err Res.CInvalidUnitRef in
+            let info_ref off = match idx_of off with Some k -> Res.Ok (OpWr.REntry (N0, n_of_int k)) | None -> Res.Err Res.CInvalidDebugInfoRef in
+            show_res wexpr (ConvertExpr.conv_expr dbg (dec_enc ~be ~asz ~ver) (Some ua) (cvt_mode mode) unit_ref info_ref (bytes_of_ints e)))
+        end
+      done)
+
+(* ---- c12.listconv ---- *)
+let () =
+  let open Cx in
+  let module W = ListWrSpec in
+  let laddr = function
+    | W.AConst v -> spf "Constant(%s)" (sn v)
+    | W.ASym (s, a) -> spf "Symbol{symbol:%s,addend:%s}" (sn s) (sz a) in
+  let lcvt mode a = match cvt_mode mode a with
+    | None -> None | Some (OpWr.AConst v) -> Some (W.AConst v) | Some (OpWr.ASym (s, x)) -> Some (W.ASym (s, x)) in
+  register "c12.listconv" ~doc:"ConvertLists.conv_range_list / conv_loc_list vs RangeList::from / LocationList::from (ConvertUnit::convert_range_list / convert_location_list in a generated unit): all entry kinds of .debug_ranges/.debug_loc and .debug_rnglists/.debug_loclists, unit base address zero / non-zero, base selection, empty ranges, .debug_addr indices in and out of range, address callbacks returning None / symbols, truncated lists; compared = the converted entry list or the error"
+    (fun ~seed ~n emit ->
+      let r = mk_rng (seed + 1203) in
+      for _ = 1 to n do
+        let loc = rand_bool r in
+        let be = rand_int r 4 = 0 in
+        let asz = pick r [| 8; 8; 4 |] in
+        let ver = pick r [| 2; 3; 4; 5; 5 |] in
+        let mode = pick r [| 0; 0; 0; 1; 2 |] in
+        let low_pc = pick r [| 0; 0; 4096 |] in
+        let c = { ListSpec.c_be = be; c_asize = n_of_int asz; c_version = n_of_int ver } in
+        let bare = ver <= 4 in
+        let nad = if rand_int r 8 = 0 then 0 else 1 + rand_int r 3 in
+        let hdr = if ver >= 5 then [0; 0; 0; 0; 5; 0; asz; 0] else [] in
+        let daddr = hdr @ List.concat (List.init nad (fun k ->
+          fixed be asz (match rand_int r 12 with 0 -> Z.of_int 0xdead | 1 -> Z.of_string "2147483648" | _ -> Z.of_int (0x2000 + 16 * k)))) in
+        let adr () = n_of_z (match rand_int r 16 with
+          | 0 -> Z.of_int 0xdead | 1 -> Z.of_string "2147483648" | 2 -> Z.of_string "2147483664" | 3 -> Z.of_int 1
+          | _ -> Z.of_int (16 * rand_int r 64)) in
+        let ofs () = n_of_int (pick r [| 0; 1; 16; 32; 48; 300 |]) in
+        let idx () = n_of_int (if nad > 0 && rand_int r 10 <> 0 then rand_int r nad else nad) in
+        let entry () : ListSpec.lent =
+          if bare then (match rand_int r 5 with
+            | 0 -> ListSpec.LBase (adr ())
+            | 1 -> let a = adr () in ListSpec.LPair (a, a)
+            | _ -> ListSpec.LPair (ofs (), n_of_int (1 + rand_int r 400)))
+          else (match rand_int r (if loc then 10 else 9) with
+            | 0 -> ListSpec.LBase (adr ())
+            | 1 -> ListSpec.LBasex (idx ())
+            | 2 -> ListSpec.LStartxEndx (idx (), idx ())
+            | 3 -> ListSpec.LStartxLength (idx (), n_of_int (pick r [| 0; 1; 16 |]))
+            | 4 | 5 -> ListSpec.LOffsetPair (ofs (), ofs ())
+            | 6 -> ListSpec.LStartEnd (adr (), adr ())
+            | 7 -> let a = adr () in ListSpec.LStartEnd (a, a)
+            | 8 -> ListSpec.LStartLength (adr (), n_of_int (pick r [| 0; 1; 16 |]))
+            | _ -> ListSpec.LDefault) in
+        let dies = die_offsets ~asz ~ver ~low_pc:(low_pc <> 0) ~line:false in
+        let data () = if rand_int r 3 = 0 then gen_expr r ~be ~asz ~ver ~dies ~depth:1
+                      else pick r [| [0x50]; [0x91; 0x78]; [0x35; 0x9f]; [0x9c] |] in
+        let ents = List.init (1 + rand_int r 6) (fun _ -> entry ()) in
+        let body =
+          if loc then ListSpec.enc_loc_list c false (List.map (fun e ->
+            (e, if ListSpec.has_data e then bytes_of_ints (data ()) else [])) ents)
+          else ListSpec.enc_rng_list c ents in
+        let body = List.map int_of_byte body in
+        let body = if rand_int r 20 = 0 then (match List.rev body with [] -> [] | _ :: t -> List.rev t) else body in
+        let pre = rand_bytes r (rand_int r 3) in
+        let sect = pre @ body in
+        let off = List.length pre in
+        let case = Printf.sprintf "c12.listconv %s %d %d %d %d %d %s %s %d" (if loc then "loc" else "rng")
+                     (if be then 1 else 0) asz ver mode low_pc (hex_of_ints daddr) (hex_of_ints sect) off in
+        both emit case (fun dbg ->
+          let base = if ver >= 5 then 8 else 0 in
+          let ua i = ListsRd.get_address be (bytes_of_ints daddr) (n_of_int asz) (n_of_int base) i in
+          let inp = bytes_of_ints body in
+          let table : OpWr.wop list list ref = ref [] in
+          let idx_of o = let rec go k = function [] -> None | d :: t -> if Z.equal (z_of_n o) (Z.of_int d) then Some k else go (k + 1) t in go 0 dies in
+          let unit_ref o = match idx_of o with Some k -> Res.Ok (n_of_int k) | None -> Res.Err Res.CInvalidUnitRef in
+          let info_ref o = match idx_of o with Some k -> Res.Ok (OpWr.REntry (N0, n_of_int k)) | None -> Res.Err Res.CInvalidDebugInfoRef in
+          let xconv (d : Byte0.byte list) : Byte0.byte list Res.res =
+            match ConvertExpr.conv_expr dbg (dec_enc ~be ~asz ~ver) (Some ua) (cvt_mode mode) unit_ref info_ref d with
+            | Res.Ok ex -> let k = List.length !table in table := !table @ [ex];
+                           Res.Ok [byte_of_int (k / 256); byte_of_int (k land 255)]
+            | Res.Err x -> Res.Err x | Res.Panic -> Res.Panic | Res.OutOfFuel -> Res.OutOfFuel in
+          let expr (k : Byte0.byte list) = match k with
+            | [a; b] -> spf "Expression{operations:%s}" (wexpr (List.nth !table (int_of_byte a * 256 + int_of_byte b)))
+            | _ -> "?" in
+          if loc then
+            (match ListsRd.loc_raw_drain dbg c bare inp with
+             | Res.Ok evs ->
+                 show_res (fun l -> "[" ^ String.concat "," (List.map (function
+                   | W.LBase a -> spf "BaseAddress{address:%s}" (laddr a)
+                   | W.LOffsetPair (b, e, d) -> spf "OffsetPair{begin:%s,end:%s,data:%s}" (sn b) (sn e) (expr d)
+                   | W.LStartEnd (b, e, d) -> spf "StartEnd{begin:%s,end:%s,data:%s}" (laddr b) (laddr e) (expr d)
+                   | W.LStartLength (b, len, d) -> spf "StartLength{begin:%s,length:%s,data:%s}" (laddr b) (sn len) (expr d)
+                   | W.LDefault d -> spf "DefaultLocation{data:%s}" (expr d)) l) ^ "]")
+                   (ConvertLists.conv_loc_list (lcvt mode) ua xconv (n_of_int low_pc) evs)
+             | Res.Err x -> "err " ^ Errnames.name x | Res.Panic -> "panic" | Res.OutOfFuel -> "outoffuel")
+          else
+            (match ListsRd.rng_raw_drain dbg c bare inp with
+             | Res.Ok evs ->
+                 show_res (fun l -> "[" ^ String.concat "," (List.map (function
+                   | W.RBase a -> spf "BaseAddress{address:%s}" (laddr a)
+                   | W.ROffsetPair (b, e) -> spf "OffsetPair{begin:%s,end:%s}" (sn b) (sn e)
+                   | W.RStartEnd (b, e) -> spf "StartEnd{begin:%s,end:%s}" (laddr b) (laddr e)
+                   | W.RStartLength (b, len) -> spf "StartLength{begin:%s,length:%s}" (laddr b) (sn len)) l) ^ "]")
+                   (ConvertLists.conv_range_list (lcvt mode) ua (n_of_int low_pc) evs)
+             | Res.Err x -> "err " ^ Errnames.name x | Res.Panic -> "panic" | Res.OutOfFuel -> "outoffuel"))
+      done)
+
+(* ---- c12.attrconv ---- *)
+let () =
+  let open Cx in
+  let acvt mode a = match cvt_mode mode a with
+    | None -> None | Some (OpWr.AConst v) -> Some (UnitWr.AConst v) | Some (OpWr.ASym (s, x)) -> Some (UnitWr.ASym (s, x)) in
+  let show_aval (v : UnitWr.aval) : string =
+    let c1 nm ty x = spf "%s(%s(%s))" nm ty (sn x) in
+    match v with
+    | UnitWr.AvAddress (UnitWr.AConst x) -> spf "Address(Constant(%s))" (sn x)
+    | UnitWr.AvAddress (UnitWr.ASym (s, a)) -> spf "Address(Symbol{symbol:%s,addend:%s})" (sn s) (sz a)
+    | UnitWr.AvBlock b -> spf "Block(%s)" (bytes_dbg b)
+    | UnitWr.AvData1 x -> spf "Data1(%s)" (sn x) | UnitWr.AvData2 x -> spf "Data2(%s)" (sn x)
+    | UnitWr.AvData4 x -> spf "Data4(%s)" (sn x) | UnitWr.AvData8 x -> spf "Data8(%s)" (sn x)
+    | UnitWr.AvData16 x -> spf "Data16(%s)" (sn x)
+    | UnitWr.AvSdata z -> spf "Sdata(%s)" (sz z) | UnitWr.AvUdata x -> spf "Udata(%s)" (sn x)
+    | UnitWr.AvImplicitConst z -> spf "ImplicitConst(%s)" (sz z)
+    | UnitWr.AvFlag b -> spf "Flag(%b)" b | UnitWr.AvFlagPresent -> "FlagPresent"
+    | UnitWr.AvDebugInfoRefSup x -> c1 "DebugInfoRefSup" "DebugInfoOffset" x
+    | UnitWr.AvDebugMacinfoRef x -> c1 "DebugMacinfoRef" "DebugMacinfoOffset" x
+    | UnitWr.AvDebugMacroRef x -> c1 "DebugMacroRef" "DebugMacroOffset" x
+    | UnitWr.AvDebugTypesRef x -> c1 "DebugTypesRef" "DebugTypeSignature" x
+    | UnitWr.AvDebugStrRefSup x -> c1 "DebugStrRefSup" "DebugStrOffset" x
+    | UnitWr.AvString b -> spf "String(%s)" (bytes_dbg b)
+    | UnitWr.AvEncoding x -> c1 "Encoding" "DwAte" x | UnitWr.AvDecimalSign x -> c1 "DecimalSign" "DwDs" x
+    | UnitWr.AvEndianity x -> c1 "Endianity" "DwEnd" x | UnitWr.AvAccessibility x -> c1 "Accessibility" "DwAccess" x
+    | UnitWr.AvVisibility x -> c1 "Visibility" "DwVis" x | UnitWr.AvVirtuality x -> c1 "Virtuality" "DwVirtuality" x
+    | UnitWr.AvLanguage x -> c1 "Language" "DwLang" x | UnitWr.AvAddressClass x -> c1 "AddressClass" "DwAddr" x
+    | UnitWr.AvIdentifierCase x -> c1 "IdentifierCase" "DwId" x | UnitWr.AvCallingConvention x -> c1 "CallingConvention" "DwCc" x
+    | UnitWr.AvInline x -> c1 "Inline" "DwInl" x | UnitWr.AvOrdering x -> c1 "Ordering" "DwOrd" x
+    | UnitWr.AvFileIndex None -> "FileIndex(None)"
+    | UnitWr.AvFileIndex (Some i) -> spf "FileIndex(Some(FileId(%s)))" (sn i)
+    | _ -> "unmodelled" in
+  register "c12.attrconv" ~doc:"ConvertAttr.conv_attr vs ConvertUnit::convert_attribute_value on one generated attribute (name x form grid over the value kinds that carry their meaning in the value: constants of every form incl. implicit_const, flags, blocks, strings, addresses direct / indexed, supplementary / macro / signature offsets, class constants, file indices through a permuted file table, DwoId, plain sec_offset = InvalidAttributeValue); kinds that need the unit tables answer `outside` on both sides"
+    (fun ~seed ~n emit ->
+      let r = mk_rng (seed + 1204) in
+      let names = [| 2; 3; 9; 11; 16; 17; 18; 19; 23; 28; 32; 50; 51; 54; 56; 57; 58; 58; 58; 59; 62; 63; 66; 67; 73; 76; 88; 88;
+                     94; 101; 105; 121; 8497; 13; 37; 44; 85; 0x2137; 110 |] in
+      for _ = 1 to n do
+        let be = rand_int r 4 = 0 in
+        let asz = pick r [| 8; 8; 4 |] in
+        let ver = pick r [| 2; 3; 4; 5; 5 |] in
+        let mode = pick r [| 0; 0; 0; 1; 2 |] in
+        let name = pick r names in
+        let nfiles = rand_int r 5 in
+        let perm = List.init nfiles (fun _ -> rand_int r 8) in
+        let nad = 1 + rand_int r 3 in
+        let hdr = if ver >= 5 then [0; 0; 0; 0; 5; 0; asz; 0] else [] in
+        let daddr = hdr @ List.concat (List.init nad (fun k ->
+          fixed be asz (match rand_int r 10 with 0 -> Z.of_int 0xdead | 1 -> Z.of_string "2147483648" | _ -> Z.of_int (0x2000 + 16 * k)))) in
+        let small () = Z.of_int (pick r [| 0; 1; 2; 3; 4; 5; 7; 8; 127; 128; 255; 256; 65535; 65536 |]) in
+        let blk () = rand_bytes r (rand_int r 5) in
+        let ic = ref 0 in
+        let (form, data) : int * int list =
+          match rand_int r 30 with
+          | 0 -> (1, fixed be asz (pick r [| Z.of_int 4096; Z.zero; Z.of_int 0xdead; Z.of_string "2147483648" |]))
+          | 1 -> let b = blk () in (3, fixed be 2 (Z.of_int (List.length b)) @ b)
+          | 2 -> let b = blk () in (4, fixed be 4 (Z.of_int (List.length b)) @ b)
+          | 3 -> let b = blk () in (9, uleb (Z.of_int (List.length b)) @ b)
+          | 4 -> let b = blk () in (10, List.length b :: b)
+          | 5 -> (5, fixed be 2 (Z.of_int (rand_int r 65536)))
+          | 6 -> (6, fixed be 4 (small ()))
+          | 7 -> (7, fixed be 8 (if rand_bool r then small () else boundary_z64 r))
+          | 8 | 9 | 10 -> (11, [rand_int r 6])
+          | 11 -> (8, List.init (rand_int r 5) (fun _ -> 97 + rand_int r 26) @ [0])
+          | 12 -> (12, [pick r [| 0; 1; 2; 255 |]])
+          | 13 -> (13, sleb (if rand_bool r then Z.neg (small ()) else small ()))
+          | 14 | 15 -> (15, uleb (if rand_int r 4 = 0 then boundary_z64 r else small ()))
+          | 16 -> (25, [])
+          | 17 | 18 | 19 -> ic := pick r [| 0; 1; 2; 3; 4; 7; -1; 300 |]; (33, [])
+          | 20 -> (30, rand_bytes r 16)
+          | 21 -> (32, fixed be 8 (boundary_z64 r))
+          | 22 -> (23, fixed be 4 (small ()))
+          | 23 -> (27, uleb (Z.of_int (rand_int r (nad + 1))))
+          | 24 -> (41, [rand_int r (nad + 1)])
+          | 25 -> (28, fixed be 4 (small ()))
+          | 26 -> (36, fixed be 8 (small ()))
+          | 27 -> (29, fixed be 4 (small ()))
+          | 28 -> (pick r [| 0x1f20; 0x1f21; 0x1f01 |], (fun f -> f) (fixed be 4 (Z.of_int (rand_int r 3))))
+          | _ -> (pick r [| 19; 14; 24; 17 |], [])   (* fixed up below *) in
+        (* forms of kinds outside the model need well-formed data too *)
+        let (form, data) = match form with
+          | 19 -> (19, fixed be 4 (Z.of_int 12)) | 14 -> (14, fixed be 4 Z.zero) | 24 -> (24, [1; 0x50]) | 17 -> (17, [12])
+          | 0x1f01 -> (0x1f01, uleb (Z.of_int (rand_int r (nad + 1))))
+          | _ -> (form, data) in
+        let case = Printf.sprintf "c12.attrconv %d %d %d %d %s %s %d %d %d %s" (if be then 1 else 0) asz ver mode
+                     (if perm = [] then "-" else String.concat "," (List.map string_of_int perm)) (hex_of_ints daddr) name form !ic (hex_of_ints data) in
+        let icv = !ic in
+        both emit case (fun dbg ->
+          let e = { FormSpec.version = n_of_int ver; fmt64 = false; address_size = n_of_int asz; be = be } in
+          let spec = { Attr.at_name = n_of_int name; at_form = n_of_int form; at_implicit = cz_of_int icv } in
+          let base = if ver >= 5 then 8 else 0 in
+          let ua i = ListsRd.get_address be (bytes_of_ints daddr) (n_of_int asz) (n_of_int base) i in
+          match Attr.parse_attribute dbg e spec (bytes_of_ints data) with
+          | Res.Ok (raw, _) ->
+              (match ConvertAttr.conv_attr (n_of_int ver) (List.map n_of_int perm) (acvt mode) ua (n_of_int form) (n_of_int name) raw with
+               | Res.Ok None -> "ok outside"
+               | Res.Ok (Some v) -> "ok " ^ show_aval v
+               | Res.Err x -> "err " ^ Errnames.name x
+               | Res.Panic -> "panic" | Res.OutOfFuel -> "outoffuel")
+          | _ -> "setup-err")
+      done)
